@@ -90,6 +90,9 @@ def check_cfg(ctx, fx, cfg):
     # R10.4 a tick is refused only when the actor is gone (the timers end on the first refused tick): shared with C15
     from props.c15 import check_forcing_never_refuses
     check_forcing_never_refuses(ctx, fx, cfg, "R10.4")
+    # R10.5 (shared with C07) a restart ends the timers of the incarnation it replaces
+    from props import c07 as _c07
+    core.shared(ctx, "R10.5", _c07.check_restart_aborts_timers, ctx, fx, cfg, "R10.5")
     tcs = timers.timer_coroutines(fx)
     ctx.floor("R10.1", "timer coroutines (%s)" % cfg, len(tcs), 2)  # at least one periodic and one one-shot body (APIs may share bodies)
     A = nfa.Alphabet(
